@@ -244,7 +244,7 @@ func pickFree[T any](c *engine.C, label string, alts ...T) T {
 // Value is a small expression choice: default is a plain string.
 func (g G) Value(label string) *Node {
 	c := g.C
-	switch c.Choose(22, label) {
+	switch c.Choose(24, label) {
 	case 0:
 		return Str("v")
 	case 1:
@@ -287,6 +287,15 @@ func (g G) Value(label string) *Node {
 		return Concat(Ident("req.http.A"), false, Call("std.itoa", Int(1)))
 	case 20:
 		return Infix(Ident("req.http.A"), "~", Str("^x"))
+	case 21:
+		// a long string with runs of empty lines (2, 3 and 4 line feeds in a row)
+		return LongStr("line1\n\nline2\n\n\nline3\n\n\n\nline4", "")
+	case 22:
+		if label == "sub.ret" {
+			// a return value that starts with "(" is the documented `return (state)` form, not a grouped expression
+			return Infix(Group(Ident("req.http.A")), "&&", Prefix("!", Group(Ident("req.http.B"))))
+		}
+		return Group(Infix(Group(Ident("req.http.A")), "&&", Prefix("!", Group(Ident("req.http.B")))))
 	default:
 		return Concat(Ident("req.http.A"), true, Ident("req.http.B"))
 	}
@@ -526,7 +535,9 @@ func (g G) Decl(kind string, depth int) *Node {
 			return N("AclCidr", "Inverse", i, "IP", N("IP", "Value", ip), "Mask", m)
 		}
 		var cidrs []*Node
-		switch c.Choose(6, "acl.entries") {
+		switch c.Choose(7, "acl.entries") {
+		case 6:
+			cidrs = []*Node{entry(false, "0.0.0.0", 0), entry(false, "::", 0), entry(true, "10.0.0.1", 32), entry(false, "2001:db8::1", 128)}
 		case 0:
 			cidrs = []*Node{entry(false, "192.168.0.1", -1)}
 		case 1:
@@ -635,7 +646,7 @@ func (g G) Decl(kind string, depth int) *Node {
 		case 3:
 			n.Set("Parameters", []*Node{N("SubroutineParameter", "Type", Ident("STRING"), "Name", Ident("var.a")), N("SubroutineParameter", "Type", Ident("INTEGER"), "Name", Ident("var.b"))})
 			n.Set("ReturnType", Ident("BOOL"))
-			n.Set("Block", Block(N("ReturnStatement", "ReturnExpression", Bool(true), "HasParenthesis", false)))
+			n.Set("Block", Block(N("ReturnStatement", "ReturnExpression", Bool(true), "HasParenthesis", true)))
 			return n
 		case 4:
 			n.Hint("parens", "1")
